@@ -495,6 +495,9 @@ void *slab_pool<Policy, Mutex>::allocate(size_t length) {
 		_trace('a', object, length);
 		return object;
 	}else{
+		// Requests so large that rounding them up to pages (plus bookkeeping) would wrap around cannot be satisfied.
+		if(length > ~size_t(0) - (page_size - 1) - huge_padding - sb_size)
+			return nullptr;
 		auto area_size = (length + page_size - 1) & ~(page_size - 1);
 		auto fra = _construct_large(area_size);
 		if(!fra)
